@@ -53,6 +53,9 @@ const seqNStmts = 3
 
 const seqWatchdog = 30 * time.Second
 
+// answer of a scenario that was not run because an earlier one ran into the watchdog (not emitted)
+const seqSkipped = "fail:skipped"
+
 func seqStmtText(s int) string { return fmt.Sprintf("SELECT a FROM ks.t WHERE a = ? AND s = %d", s) }
 
 func seqStmtIdx(text string) int {
@@ -784,6 +787,7 @@ func childSeq() {
 	in.Buffer(make([]byte, 1<<20), 1<<20)
 	out := bufio.NewWriter(os.Stdout)
 	n := 0
+	stuck := false
 	for in.Scan() {
 		f := strings.Fields(in.Text())
 		if len(f) < 2 {
@@ -821,7 +825,18 @@ func childSeq() {
 		}
 		fmt.Fprintf(out, "begin %d\ncallers %s\n", n, callersWord(callers))
 		out.Flush()
+		if stuck {
+			// a scenario of this child ran into the watchdog: goroutines of it may still be around, and
+			// every further scenario could cost another watchdog period
+			fmt.Fprintf(out, "result %s\ninv %s\n", seqSkipped, seqSkipped)
+			out.Flush()
+			n++
+			continue
+		}
 		a, inv := runSeq(callers, next, stdoutProgress{out})
+		if strings.HasPrefix(a, "fail:settle") {
+			stuck = true
+		}
 		fmt.Fprintf(out, "result %s\ninv %s\n", a, inv)
 		out.Flush()
 		n++
@@ -948,6 +963,8 @@ func RunSeqs(reqs []string, workers, chunk int) []SeqResult {
 	}
 	sem := make(chan struct{}, workers)
 	var wg sync.WaitGroup
+	var stuckMu sync.Mutex
+	stuck := 0
 	for _, j := range jobs {
 		wg.Add(1)
 		go func(j *job) {
@@ -956,7 +973,25 @@ func RunSeqs(reqs []string, workers, chunk int) []SeqResult {
 			defer func() { <-sem }()
 			rest := reqs[j.lo:j.hi]
 			for guard := 0; len(rest) > 0 && guard < len(reqs)+4; guard++ {
+				stuckMu.Lock()
+				stop := stuck >= 2
+				stuckMu.Unlock()
+				if stop {
+					// the watchdog fired twice already: the tie is broken anyway, do not spend a
+					// watchdog period per remaining scenario
+					for range rest {
+						j.res = append(j.res, SeqResult{Script: "-", Answer: seqSkipped, Inv: seqSkipped})
+					}
+					break
+				}
 				res, n := runSeqChild(rest)
+				for _, x := range res {
+					if strings.HasPrefix(x.Answer, "fail:settle") {
+						stuckMu.Lock()
+						stuck++
+						stuckMu.Unlock()
+					}
+				}
 				j.res = append(j.res, res...)
 				if n == 0 {
 					n = 1
@@ -1011,9 +1046,9 @@ func seqExec(w []string) string {
 
 // CollectSeq runs the scenarios of this tier.
 func CollectSeq(r *vh.Rng, tier string) []SeqResult {
-	n := 700
+	n := 2000
 	if tier == "thorough" {
-		n = 12000
+		n = 40000
 	}
 	var reqs []string
 	for _, d := range SeqDirected {
@@ -1032,7 +1067,12 @@ func CollectSeq(r *vh.Rng, tier string) []SeqResult {
 
 // EmitSeq emits the scenarios as op lines `seq` (event log + cache per step) and `seqinv` (the invariant).
 func EmitSeq(res []SeqResult, emit func(op, impl, class string, nontrivial bool)) {
+	skipped := 0
 	for _, x := range res {
+		if x.Answer == seqSkipped {
+			skipped++
+			continue
+		}
 		if x.Note != "" {
 			Notes = append(Notes, x.Note)
 		}
@@ -1045,5 +1085,8 @@ func EmitSeq(res []SeqResult, emit func(op, impl, class string, nontrivial bool)
 		}
 		emit("seq "+x.Script, x.Answer, cls, true)
 		emit("seqinv "+x.Script, x.Inv, "seqinv/"+strings.SplitN(x.Inv, ":", 2)[0], true)
+	}
+	if skipped > 0 {
+		Notes = append(Notes, fmt.Sprintf("seq: %d scenarios not run after the quiescence watchdog fired", skipped))
 	}
 }
